@@ -111,22 +111,41 @@ template <class E> void typed_container(Ctx& c, uint64_t m) {
 }
 
 // std::string overloads: Read(string) fills the existing length, Read<SizeType>(string) is the size-prefixed form (map and tile-group names)
-void typed_string(Ctx& c, uint64_t m) {
+// (Ch = char, char16_t, char32_t: a string of n characters occupies n * sizeof(Ch) bytes, like any container)
+template <class Ch = char> void typed_string(Ctx& c, uint64_t m) {
 	uint64_t rem = c.window.size() - c.cur;
 	if (m > 4096) m = 4096 + (m & 63);
-	std::string v(size_t(m), '\x55');
+	std::basic_string<Ch> v(size_t(m), Ch(0x55));
 	Out o = guarded([&] { c.r->Read(v); });
-	if (m <= rem) {
-		V_CHECK(o == Out::Ok, "string read of " << m << " bytes, rem " << rem << " failed; trace=" << c.trace);
-		V_CHECK(v.size() == m && (m == 0 || memcmp(v.data(), c.window.data() + c.cur, size_t(m)) == 0), "string read wrong bytes; trace=" << c.trace);
-		c.cur += m;
+	unsigned __int128 need = (unsigned __int128)m * sizeof(Ch);
+	if (need <= rem) {
+		V_CHECK(o == Out::Ok, "string read of " << m << " characters of " << sizeof(Ch) << " bytes, rem " << rem << " failed; trace=" << c.trace);
+		V_CHECK(v.size() == m && (m == 0 || memcmp(v.data(), c.window.data() + c.cur, size_t(need)) == 0), "string read (" << sizeof(Ch) << "-byte characters) wrong bytes; trace=" << c.trace);
+		c.cur += uint64_t(need);
 		if (c.seen_fail && m) c.nt = true;
 	} else {
-		V_CHECK(o == Out::Err, "string read of " << m << " bytes with rem " << rem << " succeeded; trace=" << c.trace);
+		V_CHECK(o == Out::Err, "string read of " << m << " characters of " << sizeof(Ch) << " bytes with rem " << rem << " succeeded; trace=" << c.trace);
 		c.seen_fail = true;
 	}
 }
-template <class S> void typed_prefixed_string(Ctx& c) {
+template <class S, class Ch = char> void typed_prefixed_string(Ctx& c) {
+	if (sizeof(Ch) > 1) {   // wide strings: the generic size-prefixed container law with Ch-sized elements
+		uint64_t before = c.cur, rem = c.window.size() - c.cur; std::basic_string<Ch> v(3, Ch(0x55)); std::string what;
+		Out o = guarded([&] { c.r->template Read<S>(v); }, &what);
+		if (rem < sizeof(S)) { V_CHECK(o == Out::Err, "prefixed wide-string read without room for the prefix succeeded; trace=" << c.trace); c.seen_fail = true; return; }
+		S sz; memcpy(&sz, c.window.data() + c.cur, sizeof(S)); bool negative = std::is_signed<S>::value && sz < 0;
+		unsigned __int128 need = negative ? 0 : (unsigned __int128)(uint64_t)sz * sizeof(Ch); uint64_t rem2 = rem - sizeof(S);
+		if (!negative && need <= rem2) {
+			V_CHECK(o == Out::Ok, "prefixed wide-string read size=" << (long long)sz << " x " << sizeof(Ch) << " rem=" << rem2 << " failed: " << what << "; trace=" << c.trace);
+			V_CHECK(v.size() == uint64_t(sz) && (need == 0 || memcmp(v.data(), c.window.data() + c.cur + sizeof(S), size_t(need)) == 0), "prefixed wide-string read returned " << v.size() << " characters / wrong text, encoded " << (long long)sz << "; trace=" << c.trace);
+			c.cur += sizeof(S) + uint64_t(need); if (c.seen_fail) c.nt = true;
+		} else {
+			V_CHECK(o == Out::Err, "prefixed wide-string read with " << (negative ? "negative" : "unsatisfiable") << " size " << (long long)sz << " succeeded; trace=" << c.trace);
+			uint64_t p = c.r->Position(); V_CHECK(p >= before && p <= before + sizeof(S) && p <= c.window.size(), "after failed prefixed wide-string read Position()=" << p << "; trace=" << c.trace);
+			c.cur = p; c.seen_fail = true;
+		}
+		return;
+	}
 	uint64_t before = c.cur, rem = c.window.size() - c.cur;
 	std::string v = "stale"; std::string what;
 	Out o = guarded([&] { c.r->template Read<S>(v); }, &what);
@@ -271,13 +290,13 @@ void step(Ctx& c, const OpRec& rec) {
 		case 0: typed_container<uint8_t>(c, a); break;
 		case 1: typed_container<uint16_t>(c, a); break;
 		case 2: typed_container<uint32_t>(c, a); break;
-		default: typed_string(c, a); break;
+		default: switch ((rec.raw >> 4) % 4) { case 2: typed_string<char16_t>(c, a); break; case 3: typed_string<char32_t>(c, a); break; default: typed_string<char>(c, a); break; } break;
 		}
 		break; }
 	case OTypedPrefixed: {
 		unsigned e = (rec.raw >> 8) % 4;
 		switch (rec.raw % 7) {
-#define PFX(S) (e == 0 ? typed_prefixed<S, uint8_t>(c) : e == 1 ? typed_prefixed<S, uint16_t>(c) : e == 2 ? typed_prefixed<S, uint32_t>(c) : typed_prefixed_string<S>(c))
+#define PFX(S) (e == 0 ? typed_prefixed<S, uint8_t>(c) : e == 1 ? typed_prefixed<S, uint16_t>(c) : e == 2 ? typed_prefixed<S, uint32_t>(c) : ((rec.raw >> 12) % 4 == 2 ? typed_prefixed_string<S, char16_t>(c) : (rec.raw >> 12) % 4 == 3 ? typed_prefixed_string<S, char32_t>(c) : typed_prefixed_string<S, char>(c)))
 		case 0: PFX(uint8_t); break;
 		case 1: PFX(int8_t); break;
 		case 2: PFX(uint16_t); break;
